@@ -558,6 +558,8 @@ class StmtMixin:
             items = self.iter_items(it)
         except E.Unsupported:
             if spec is None:
+                if self.partition_loop(node, frame):
+                    return
                 raise
         if items is not None and (spec is None or spec.get("unroll")):
             for x in items:
@@ -571,6 +573,145 @@ class StmtMixin:
             self.exec_block(node.orelse, frame)
             return
         return self.cut_for(node, frame, spec, it)
+
+    def map_loop(self, node, frame, tgt):
+        """`for x in L: t1 = e1(x); ...; acc.append(e(x, t1, ...))` with acc a local list that is empty when the loop starts: the explicit-loop form of
+        acc = [e(x, e1(x), ...) for x in L]; executed as that comprehension (temporaries inlined; after the loop they hold arbitrary values)."""
+        import copy as _copy
+        body = node.body
+        if not body or not isinstance(body[-1], ast.Expr) or not isinstance(body[-1].value, ast.Call):
+            return False
+        c = body[-1].value
+        if not (isinstance(c.func, ast.Attribute) and c.func.attr == "append" and isinstance(c.func.value, ast.Name) and len(c.args) == 1 and not c.keywords):
+            return False
+        acc = c.func.value.id
+        temps = {}
+        for st in body[:-1]:
+            if not (isinstance(st, ast.Assign) and len(st.targets) == 1 and isinstance(st.targets[0], ast.Name)):
+                return False
+            nm = st.targets[0].id
+            if nm in (acc, tgt) or nm in temps:
+                return False
+            temps[nm] = st.value
+        if not temps and isinstance(c.args[0], ast.Name) and c.args[0].id == tgt:
+            return False        # plain copy / partition: handled by the caller
+        cur = frame.locals.get(acc)
+        if not (isinstance(cur, VRef) and cur.kind == "list" and self.run.rec(cur.oid).concrete and len(self.run.rec(cur.oid).items) == 0):
+            return False
+        for e_ in list(temps.values()) + [c.args[0]]:
+            if any(isinstance(x_, (ast.NamedExpr, ast.Await, ast.Yield, ast.YieldFrom)) or (isinstance(x_, ast.Name) and x_.id == acc) for x_ in ast.walk(e_)):
+                return False
+
+        class Inline(ast.NodeTransformer):
+            def __init__(self, env):
+                self.env = env
+
+            def visit_Name(self, n_):
+                if isinstance(n_.ctx, ast.Load) and n_.id in self.env:
+                    return _copy.deepcopy(self.env[n_.id])
+                return n_
+        env = {}
+        for nm, e_ in temps.items():
+            env[nm] = Inline(dict(env)).visit(_copy.deepcopy(e_))
+        elt = Inline(env).visit(_copy.deepcopy(c.args[0]))
+        comp = ast.ListComp(elt=elt, generators=[ast.comprehension(target=ast.Name(id=tgt, ctx=ast.Store()), iter=node.iter, ifs=[], is_async=0)])
+        ast.copy_location(comp, node)
+        ast.fix_missing_locations(comp)
+        frame.locals[acc] = self.eval(comp, frame)
+        for nm in temps:
+            frame.locals[nm] = self.fresh(("any",), self.run.fresh_name(f"{nm}@after-loop"))
+        return True
+
+    def partition_loop(self, node, frame):
+        """`for x in L: if c1(x): a.append(x) elif c2(x): b.append(x) ...` over a symbolic list, with a, b, ... local lists that are empty when
+        the loop starts, is the explicit-loop form of the comprehensions  a = [x for x in L if c1(x)], b = [x for x in L if not c1(x) and c2(x)], ...
+        and is executed as those (so the refactoring comprehension <-> loop does not need a loop contract).  Returns False when the loop is not
+        of that shape."""
+        if node.orelse or not isinstance(node.target, ast.Name):
+            return False
+        tgt = node.target.id
+        if self.map_loop(node, frame, tgt):
+            return True
+        branches = []      # (test or None, accumulator name)
+
+        def append_of(stmts_):
+            if len(stmts_) != 1 or not isinstance(stmts_[0], ast.Expr) or not isinstance(stmts_[0].value, ast.Call):
+                return None
+            c = stmts_[0].value
+            if isinstance(c.func, ast.Attribute) and c.func.attr == "append" and isinstance(c.func.value, ast.Name) and len(c.args) == 1 \
+                    and not c.keywords and isinstance(c.args[0], ast.Name) and c.args[0].id == tgt:
+                return c.func.value.id
+            return None
+        body = node.body
+        if len(body) != 1:
+            return False
+        st = body[0]
+        if isinstance(st, ast.Expr):
+            acc = append_of(body)
+            if acc is None:
+                return False
+            branches.append((None, acc))
+        else:
+            while True:
+                if not isinstance(st, ast.If):
+                    return False
+                acc = append_of(st.body)
+                if acc is None:
+                    return False
+                branches.append((st.test, acc))
+                if not st.orelse:
+                    break
+                if len(st.orelse) == 1 and isinstance(st.orelse[0], ast.If):
+                    st = st.orelse[0]
+                    continue
+                acc = append_of(st.orelse)
+                if acc is None:
+                    return False
+                branches.append((None, acc))
+                break
+        names = [a for _t, a in branches]
+        if len(set(names)) != len(names) or tgt in names:
+            return False
+        for t_, _a in branches:
+            if t_ is not None and any(isinstance(x_, (ast.NamedExpr, ast.Await, ast.Yield, ast.YieldFrom)) or
+                                      (isinstance(x_, ast.Name) and x_.id in names) for x_ in ast.walk(t_)):
+                return False
+        for a in names:
+            cur = frame.locals.get(a)
+            if not (isinstance(cur, VRef) and cur.kind == "list"):
+                return False
+            r = self.run.rec(cur.oid)
+            if not (r.concrete and len(r.items) == 0):
+                return False
+        # tests that compare ONE expression with pairwise different constants exclude each other: the `not earlier` conjuncts are redundant
+        exclusive = False
+        tests = [t_ for t_, _a in branches if t_ is not None]
+        if tests and all(isinstance(t_, ast.Compare) and len(t_.ops) == 1 and isinstance(t_.ops[0], ast.Eq) for t_ in tests):
+            lefts = {ast.unparse(t_.left) for t_ in tests}
+            if len(lefts) == 1:
+                try:
+                    f0 = E.Frame(frame.relpath, frame.ci, {}, frame, frame.fname)
+                    vals = [self.eval(t_.comparators[0], f0) for t_ in tests]
+                    exclusive = all(E.is_false(E.simp(self.eq(vals[i], vals[j]))) for i in range(len(vals)) for j in range(i))
+                except (E.Unsupported, E.PyExc):
+                    exclusive = False
+        earlier = []
+        for t_, a in branches:
+            conds = []
+            if not exclusive:
+                conds += [ast.UnaryOp(op=ast.Not(), operand=e_) for e_ in earlier]
+            if t_ is not None:
+                conds.append(t_)
+                earlier.append(t_)
+            comp = ast.ListComp(elt=ast.Name(id=tgt, ctx=ast.Load()),
+                                generators=[ast.comprehension(target=ast.Name(id=tgt, ctx=ast.Store()), iter=node.iter,
+                                                              ifs=[ast.BoolOp(op=ast.And(), values=conds)] if len(conds) > 1 else conds, is_async=0)])
+            ast.copy_location(comp, node)
+            ast.fix_missing_locations(comp)
+            frame.locals[a] = self.eval(comp, frame)
+        if "partition loop executed as the equivalent filter comprehensions" not in self.run.abstractions and False:
+            pass
+        return True
 
     def iter_items(self, it):
         if isinstance(it, VRef) and it.kind == "iter":
